@@ -25,7 +25,7 @@ def bitrev(x, n):
     return r
 
 
-def geometry_job(name="", memtype="SDR", nphases=1, bankbits=1, rowbits=2, colbits=8, nranks=1, bank_byte_alignment=0, ap=False, structured=False, databits=8, seed=0):
+def geometry_job(name="", memtype="SDR", nphases=1, bankbits=1, rowbits=2, colbits=8, nranks=1, bank_byte_alignment=0, ap=False, structured=False, databits=8, seed=0, time_limit=None):
     import time as _t
     t0 = _t.time()
     from checks.corebuild import make_core
@@ -121,8 +121,11 @@ def geometry_job(name="", memtype="SDR", nphases=1, bankbits=1, rowbits=2, colbi
                 cur.append((sel[0], bank, rows_open[b], col, a10, len(sel)))
                 if a10 and has_a10: rows_open[b] = None
 
+    capped = None
     for pass_no, order in enumerate((addrs, order2)):
         for a in order:
+            if time_limit and (evals & 255) == 0 and _t.time() - t0 > time_limit:
+                capped = "wall clock %ds after %d of %d evaluations" % (time_limit, evals, 2 * len(addrs)); break
             # issue the read, hold until accepted, then wait for the data
             cur = []; accepted = False; done = False
             for _ in range(200):
@@ -158,16 +161,16 @@ def geometry_job(name="", memtype="SDR", nphases=1, bankbits=1, rowbits=2, colbi
             if prev is not None and prev != (rank, bank, row, col):
                 viols.append(("map.unstable", "address %#x mapped differently in the second pass" % a, dict(kind="unstable"))); break
             observed[a] = (rank, bank, row, col)
-        if viols: break
+        if viols or capped: break
     if not viols:
         inv = {}
         for a, loc in observed.items():
             if loc in inv:
                 viols.append(("map.not_injective", "addresses %#x and %#x reach the same burst %s" % (inv[loc], a, loc), dict(kind="injective"))); break
             inv[loc] = a
-        if not viols and not structured and len(inv) != nranks * (1 << bankbits) * (1 << rowbits) * (1 << (colbits - align)):
+        if not viols and not structured and not capped and len(inv) != nranks * (1 << bankbits) * (1 << rowbits) * (1 << (colbits - align)):
             viols.append(("map.not_onto", "%d distinct bursts reached, device has %d" % (len(inv), nranks * (1 << bankbits) * (1 << rowbits) * (1 << (colbits - align))), dict(kind="onto")))
-        if not viols and not structured and not bank_byte_alignment:
+        if not viols and not structured and not bank_byte_alignment and not capped:
             # consecutive addresses walk columns, then banks (rank above bank), then rows
             for a in range(min(len(addrs) - 1, 1 << 14)):
                 r0, b0, w0, c0 = observed[a]; r1, b1, w1, c1 = observed[a + 1]
@@ -181,7 +184,7 @@ def geometry_job(name="", memtype="SDR", nphases=1, bankbits=1, rowbits=2, colbi
         S2, O = c.cycle(S, I); Os = drv.cycle(I)
         if tuple(Os) != tuple(O) or drv.state() != S2: raise fhdl.EngineError("conformance mismatch in C06 run")
         S = S2
-    out = dict(config=name, evaluations=evals, distinct_nontrivial=len(observed), states=0, transitions=cycles, complete=True, samples=samples, violations=[], known_hits={}, known_entries={},
+    out = dict(config=name, evaluations=evals, distinct_nontrivial=len(observed), states=0, transitions=cycles, complete=not capped, capped=capped, samples=samples, violations=[], known_hits={}, known_entries={},
                conformance_traces=1, conformance_cycles=len(trace_inputs), wall_s=round(_t.time() - t0, 2), address_width=aw, addresses=len(addrs), structured=structured)
     for rule, msg, det in viols[:1]:
         case = dict(memtype=memtype, nphases=nphases, bankbits=bankbits, rowbits=rowbits, colbits=colbits, nranks=nranks, bank_byte_alignment=bank_byte_alignment, ap=ap, structured=structured, databits=databits)
@@ -256,6 +259,6 @@ def run(tier, seed, only=None):
     jobs = []
     for name, kw in configs(tier):
         if only and only not in name: continue
-        jobs.append((geometry_job, (), dict(name=name, seed=seed, **kw)))
+        jobs.append((geometry_job, (), dict(name=name, seed=seed, time_limit=(None if tier == "quick" else 1200), **kw)))
     res = runner.run_jobs(jobs)
     return runner.finish(PROP, tier, seed, "exploration", res, t0, ASSUME, RULE, technique="exhaustive enumeration of port addresses through the elaborated crossbar+controller netlist against an independent bit-permutation reference")
